@@ -54,10 +54,10 @@ func (s TypedStringEnumSchema[T]) Unserialize(data any) (any, error) {
 	return typedData, s.Validate(typedData)
 }
 
-func (s TypedStringEnumSchema[T]) UnserializeType(data any) (string, error) {
+func (s TypedStringEnumSchema[T]) UnserializeType(data any) (T, error) {
 	unserialized, err := s.Unserialize(data)
 	if err != nil {
 		return "", err
 	}
-	return unserialized.(string), nil
+	return unserialized.(T), nil
 }
